@@ -218,24 +218,107 @@ def _conservation(chk, repo, folder):
     exp_tests = [n for n in ff.cfg.nodes if n.kind == "test" and "EXPEDITED" in src(n.ast)]
     chk.check(len(exp_tests) == 1 and ff.is_form(exp_tests[0].ast, "command & EXPEDITED"), "R4", f"{SV}:SdoServer.init_download | expedited bit selects the path", f.loc(),
               f"{[src(t.ast) for t in exp_tests]}; expected `command & EXPEDITED` (bit 1 of the request)")
-    sizes = [n for n in own_nodes(f.node) if isinstance(n, ast.Assign) and src(n.targets[0]) == "size" and any(p and ff.norm(e, subst=False) == ff.canon("command & EXPEDITED") for e, p in ff.facts_at(n))]
-    chk.check(len(sizes) == 2, "R4", f"{SV}:SdoServer.init_download | expedited size for sized and unsized requests", f.loc(), f"{[src(s_) for s_ in sizes]}")
+    # which bytes of the request an expedited download stores: decided by specialising the handler for the eight expedited command
+    # bytes (size flag x n = 0..3) -- bytes 4 .. 4 + (4 - n) when the size is indicated, 4 .. 8 otherwise; the shape of the code
+    # (a local `size`, a conditional expression inside the slice, named bounds) does not matter
     commits = find_calls(f.node, "self._node.set_data")
     chk.check(len(commits) == 1, "R4", f"{SV}:SdoServer.init_download | expedited download is committed", f.loc(), f"{len(commits)} set_data calls")
-    for c in find_calls(f.node, "self._node.set_data"):
-        a = c.args[2] if len(c.args) > 2 else None
-        ok = a is not None and isinstance(a, ast.Subscript) and isinstance(a.slice, ast.Slice) and src(a.slice.lower) == "4" and ff.is_form(a.slice.upper, "4 + size")
-        chk.check(ok and [src(x) for x in c.args[:2]] == ["index", "subindex"], "R4", f"{SV}:SdoServer.init_download | expedited payload", f.loc(c), f"{src(c)}")
-    for s_ in [n for n in own_nodes(f.node) if isinstance(n, ast.Assign) and src(n.targets[0]) == "size"]:
-        g = [(ff.norm(e, subst=False), p) for e, p in ff.facts_at(s_)]
-        if (ff.canon("command & EXPEDITED"), True) in g:
-            sized = [t for t, p in g if "SIZE_SPECIFIED" in t or t == ff.canon("command & 1")]
-            chk.check(bool(sized), "R4", f"{SV}:SdoServer.init_download | size source selected by the s bit ({src(s_)[:30]})", f.loc(s_), f"{g}")
-            if (ff.canon("command & SIZE_SPECIFIED"), True) in g:
-                chk.check(ff.is_form(s_.value, "4 - ((command >> 2) & 0x3)"), "R4", f"{SV}:SdoServer.init_download | expedited size (sized)", f.loc(s_), src(s_))
-            else:
-                chk.check(folder.try_fold(s_.value, ff.scope, None) == 4, "R4", f"{SV}:SdoServer.init_download | expedited size (unsized)", f.loc(s_), src(s_))
 
+    def _bounds(cmd_value):
+        env = {}
+        for st_ in f.node.body:
+            r_ = _walk_spec(st_, env, cmd_value)
+            if r_ is not None:
+                return r_
+        return ("unknown", "no set_data reached")
+
+    def _walk_spec(st_, env, cmd_value):
+        if isinstance(st_, ast.Assign) and len(st_.targets) == 1 and isinstance(st_.targets[0], ast.Tuple) and isinstance(st_.value, ast.Call) \
+                and (dotted(st_.value.func) or "").endswith("unpack_from") and isinstance(st_.targets[0].elts[0], ast.Name):
+            env[st_.targets[0].elts[0].id] = cmd_value
+            for e_ in st_.targets[0].elts[1:]:
+                if isinstance(e_, ast.Name):
+                    env.pop(e_.id, None)
+            return None
+        if isinstance(st_, ast.Assign) and len(st_.targets) == 1 and isinstance(st_.targets[0], ast.Name):
+            try:
+                env[st_.targets[0].id] = folder.fold(st_.value, Scope(f.mod, f.cls, dict(env)))
+            except Unfoldable:
+                env.pop(st_.targets[0].id, None)
+            return None
+        if isinstance(st_, ast.AugAssign) and isinstance(st_.target, ast.Name):
+            try:
+                env[st_.target.id] = folder.fold(ast.BinOp(left=ast.Name(id=st_.target.id, ctx=ast.Load()), op=st_.op, right=st_.value), Scope(f.mod, f.cls, dict(env)))
+            except Unfoldable:
+                env.pop(st_.target.id, None)
+            return None
+        if isinstance(st_, ast.If):
+            try:
+                t_ = folder.fold(st_.test, Scope(f.mod, f.cls, dict(env)))
+            except Unfoldable as ex_:
+                return ("unknown", f"test `{src(st_.test)}`: {ex_}")
+            for s2 in (st_.body if t_ else st_.orelse):
+                r_ = _walk_spec(s2, env, cmd_value)
+                if r_ is not None:
+                    return r_
+            return None
+        for c_ in [x for x in ast.walk(st_) if isinstance(x, ast.Call) and dotted(x.func) == "self._node.set_data"]:
+            a_ = c_.args[2] if len(c_.args) > 2 else None
+            if not (isinstance(a_, ast.Subscript) and isinstance(a_.slice, ast.Slice) and a_.slice.step is None):
+                return ("unknown", f"stored value `{src(a_) if a_ is not None else '?'}` is not a slice")
+            if src(a_.value) != f.params[1]:
+                return ("bad", f"stores a slice of `{src(a_.value)}`, not of the request")
+            try:
+                lo_ = folder.fold(a_.slice.lower, Scope(f.mod, f.cls, dict(env))) if a_.slice.lower is not None else 0
+                hi_ = folder.fold(a_.slice.upper, Scope(f.mod, f.cls, dict(env))) if a_.slice.upper is not None else 8
+            except Unfoldable as ex_:
+                return ("unknown", f"bounds of `{src(a_)}`: {ex_}")
+            return ("slice", lo_, hi_, c_)
+        return None
+    spec_bad = spec_unknown = None
+    n_spec = 0
+    for s_bit in (0, 1):
+        for n_ in range(4):
+            cmd_ = 0x20 | 0x02 | s_bit | (n_ << 2)
+            r_ = _bounds(cmd_)
+            if r_[0] == "unknown":
+                spec_unknown = r_[1]
+                break
+            if r_[0] == "bad":
+                spec_bad = r_[1]
+                break
+            want_ = (4, 4 + (4 - n_ if s_bit else 4))
+            n_spec += 1
+            if (r_[1], r_[2]) != want_:
+                spec_bad = (f"for command byte {cmd_:#04x} (size {'indicated, n = ' + str(n_) if s_bit else 'not indicated'}) bytes [{r_[1]}, {r_[2]}) of the request are stored; "
+                            f"CiA 301: bytes [{want_[0]}, {want_[1]})")
+                break
+        if spec_bad or spec_unknown:
+            break
+    if spec_unknown is None:
+        chk.check(spec_bad is None, "R4", f"{SV}:SdoServer.init_download | expedited payload", f.loc(commits[0]) if commits else f.loc(), spec_bad or "",
+                  f"specialised for {n_spec} expedited command bytes")
+        for c in commits:
+            chk.check([src(x) for x in c.args[:2]] == ["index", "subindex"], "R4", f"{SV}:SdoServer.init_download | expedited payload stored at the request's multiplexer", f.loc(c), f"{src(c)}")
+    else:
+        chk.notes.append(f"C02.R4 init_download could not be specialised ({spec_unknown}); the shape checks stand alone")
+        sizes = [n for n in own_nodes(f.node) if isinstance(n, ast.Assign) and src(n.targets[0]) == "size" and any(p and ff.norm(e, subst=False) == ff.canon("command & EXPEDITED") for e, p in ff.facts_at(n))]
+        chk.check(len(sizes) == 2, "R4", f"{SV}:SdoServer.init_download | expedited size for sized and unsized requests", f.loc(), f"{[src(s_) for s_ in sizes]}")
+        commits = find_calls(f.node, "self._node.set_data")
+        chk.check(len(commits) == 1, "R4", f"{SV}:SdoServer.init_download | expedited download is committed", f.loc(), f"{len(commits)} set_data calls")
+        for c in find_calls(f.node, "self._node.set_data"):
+            a = c.args[2] if len(c.args) > 2 else None
+            ok = a is not None and isinstance(a, ast.Subscript) and isinstance(a.slice, ast.Slice) and src(a.slice.lower) == "4" and ff.is_form(a.slice.upper, "4 + size")
+            chk.check(ok and [src(x) for x in c.args[:2]] == ["index", "subindex"], "R4", f"{SV}:SdoServer.init_download | expedited payload", f.loc(c), f"{src(c)}")
+        for s_ in [n for n in own_nodes(f.node) if isinstance(n, ast.Assign) and src(n.targets[0]) == "size"]:
+            g = [(ff.norm(e, subst=False), p) for e, p in ff.facts_at(s_)]
+            if (ff.canon("command & EXPEDITED"), True) in g:
+                sized = [t for t, p in g if "SIZE_SPECIFIED" in t or t == ff.canon("command & 1")]
+                chk.check(bool(sized), "R4", f"{SV}:SdoServer.init_download | size source selected by the s bit ({src(s_)[:30]})", f.loc(s_), f"{g}")
+                if (ff.canon("command & SIZE_SPECIFIED"), True) in g:
+                    chk.check(ff.is_form(s_.value, "4 - ((command >> 2) & 0x3)"), "R4", f"{SV}:SdoServer.init_download | expedited size (sized)", f.loc(s_), src(s_))
+                else:
+                    chk.check(folder.try_fold(s_.value, ff.scope, None) == 4, "R4", f"{SV}:SdoServer.init_download | expedited size (unsized)", f.loc(s_), src(s_))
     # R16: entries of arrays that are described once (implicit members) are served like described ones (shared with C08.R11 / C06.R9)
     from . import c08 as _c08im
     _c08im.implicit_members(chk, "R16")
